@@ -154,15 +154,15 @@ def seventh(note, key):
 
 
 def minor_unison(note):
-    return notes.diminish(note)
+    return augment_or_diminish_until_the_interval_is_right(note, note[0], 11)
 
 
 def major_unison(note):
-    return note
+    return augment_or_diminish_until_the_interval_is_right(note, note[0], 0)
 
 
 def augmented_unison(note):
-    return notes.augment(note)
+    return augment_or_diminish_until_the_interval_is_right(note, note[0], 1)
 
 
 def minor_second(note):
